@@ -10,7 +10,9 @@ package main
 //	be.pack <x> <z> => ok <xz hex2> | no <xz hex2>           (PackXZ on an entity holding 0xa5 before)
 //	be.unpack <xz hex2> => <x> <z>
 //	chunk.wire secs= dmode= mdl= extra= reg= nb= air= hist= dhist= => ok n= len= wd= rn= left= W= Wmb= Wws= R= Rmb= Rws= E=
-//	chunk.save secs= ypos= via= mdl= reg= nb= air= hist= => ok W= Y= SP= SH= Sst= R= RH= Rst=
+//	chunk.save secs= ypos= via= mdl= psecs= phist= reg= nb= air= hist= => ok W= Y= SP= SH= Sst= K= R= RH= Rst=
+//	     (psecs/phist: the destination save.Chunk was filled before by that chunk; K: XPos.ZPos.DataVersion.InhabitedTime.
+//	      digest of another Heightmaps entry.YPos.#BlockEntities.#Heightmaps — what ChunkToSave must leave alone)
 //	light.rt used= extra= sky= blk= sl= bl= => ok n= len= wd= rn= left= sky= blk= sl= bl=
 //	save.hm secs= k= longs= => ok | err | panic…           (ChunkFromSave with height map k of that many longs; -1 = absent)
 //	chunk.rd secs= used= <hex> | section.rd used= <hex> | be.rd used= <hex> | light.rd used= <hex>
@@ -368,6 +370,19 @@ func c13Save(c *Ctx, args []string) {
 		// the raw NBT fields of the save form must hold something encodable for via=nbt (save.Chunk.Data refuses a zero RawMessage)
 		emptyTag := nbt.RawMessage{Type: nbt.TagCompound, Data: []byte{0}}
 		sv := &save.Chunk{YPos: ypos, BlockTicks: emptyTag, FluidTicks: emptyTag, PostProcessing: emptyTag, Structures: emptyTag}
+		// prior state of the destination: the same save.Chunk was filled before by another chunk (psecs sections,
+		// history phist) and carries fields ChunkToSave does not own
+		if ps, ok := m["psecs"]; ok && ps != "-" {
+			pe := c13Env{secs: c13Atoi(ps), reg: e.reg, nb: e.nb}
+			prior := level.EmptyChunk(pe.secs)
+			c13Apply(prior, pe, m["phist"])
+			if err := level.ChunkToSave(prior, sv); err != nil {
+				obs = "err@prior"
+				return
+			}
+			sv.Heightmaps["WORLD_SURFACE_IGNORE_SNOW"] = []uint64{1, 2, 3}
+			sv.XPos, sv.ZPos, sv.DataVersion, sv.InhabitedTime = 7, -3, 3953, 99
+		}
 		if err := level.ChunkToSave(src, sv); err != nil {
 			obs = "err@tosave W=" + w
 			return
@@ -402,6 +417,12 @@ func c13Save(c *Ctx, args []string) {
 		}
 		sh := c13AllHM(func(k int) []uint64 { return sv.Heightmaps[c13HMNames[k]] })
 		sst := hx([]byte(sv.Status))
+		// what ChunkToSave must leave alone
+		other := "-"
+		if o, ok := sv.Heightmaps["WORLD_SURFACE_IGNORE_SNOW"]; ok {
+			other = c13DigLongs(o)
+		}
+		sst += fmt.Sprintf(" K=%d.%d.%d.%d.%s.%d.%d.%d", sv.XPos, sv.ZPos, sv.DataVersion, sv.InhabitedTime, other, sv.YPos, len(sv.BlockEntities), len(sv.Heightmaps))
 		var dst *level.Chunk
 		var err error
 		// a panic while loading is part of the observation (the save-form fields are still reported)
@@ -1354,8 +1375,39 @@ func (c *Ctx) c13SaveCase(secs int, cls int, air []int, mdl bool) {
 	if c.R.Intn(4) == 0 {
 		via = "nbt"
 	}
+	// prior state of the destination: fresh, or filled before by a chunk with the same / more / fewer sections
+	// whose light is dense (the new chunk's light is sparse, so "light there, none here" and the converse both occur)
+	psecs, phist := "-", "-"
+	if c.R.Intn(2) == 0 {
+		pn := []int{secs, secs, secs + 1 + c.R.Intn(4), secs / 2, 0, 24}[c.R.Intn(6)]
+		if pn+ypos > 127 {
+			pn = secs
+		}
+		psecs = strconv.Itoa(pn)
+		if pn > 0 {
+			pe := c13Env{secs: pn, reg: e.reg, nb: 63}
+			g := &c13Gen{c: c, e: pe, air: air}
+			for s := 0; s < pn; s++ {
+				if c.R.Intn(4) != 0 {
+					g.add("sl:%d:2048:%d:%d", s, c.R.Intn(256), c.R.Intn(256))
+				}
+				if c.R.Intn(4) != 0 {
+					g.add("bl:%d:2048:%d:%d", s, c.R.Intn(256), c.R.Intn(256))
+				}
+			}
+			if !mdl || pn <= 4 {
+				t := c.R.Intn(pn)
+				g.section(t, c13StateClasses[c.R.Intn(len(c13StateClasses))], 3)
+				g.biomes(t, c13BiomeClasses[c.R.Intn(len(c13BiomeClasses))], true)
+			}
+			g.heightMaps(true)
+			g.add("st:%s", hx([]byte("prior")))
+			phist = g.hist()
+		}
+	}
 	c13Save(c, []string{
 		"secs=" + strconv.Itoa(secs), "ypos=" + strconv.Itoa(ypos), "via=" + via, "mdl=" + m,
+		"psecs=" + psecs, "phist=" + phist,
 		"reg=" + strconv.Itoa(e.reg), "nb=63", "air=" + c13AirArg(air), "hist=" + hist})
 }
 
